@@ -38,8 +38,14 @@ def gen_history(rng, maxlen):
         k = rng.choices(["add", "edit", "get", "del", "swap", "len", "tagnum"], weights=[30, 14, 18, 12, 14, 4, 8])[0]
         tag = rng.choice(TAGS[:4] + [None, None])
         if k == "add":
-            nid[0] += 1; approx[which] += 1
-            ops.append((which, "add", nid[0], tag))
+            approx[which] += 1
+            earlier = [o for o in ops if o[0] == which and o[1] == "add"]
+            if earlier and rng.random() < 0.2:
+                # an exact duplicate of an earlier record (same hkl, position, energy / xyz, same tag): lists may hold equal records
+                ops.append((which, "add", earlier[-1][2] if rng.random() < 0.5 else rng.choice(earlier)[2], rng.choice(earlier)[3] if rng.random() < 0.3 else earlier[-1][3]))
+            else:
+                nid[0] += 1
+                ops.append((which, "add", nid[0], tag))
         elif k == "edit":
             nid[0] += 1
             ops.append((which, "edit", idx(which), nid[0], tag))
@@ -146,6 +152,8 @@ def correspondence(ctx):
         lines += ["rl.refl reset", "rl.orient reset"]; expect += ["ok | ", "ok | "]; where += [(hi, -1), (hi, -1)]
         for oi, op in enumerate(ops):
             res = apply_impl(ub, op)
+            if oi % 3 == 1:
+                str(ub)                      # a textual report in between is a pure query
             lines.append(op_line(op)); expect.append(f"{res} | {state(ub, op[0])}"); where.append((hi, oi))
             kinds.add((op[0], op[1], op[2][0] if len(op) > 2 and isinstance(op[2], tuple) else "", res.split(" ")[0]))
     ans = drive(lines)
@@ -233,6 +241,8 @@ def oracle(ctx, widen=1):
                 p = pos_of(("@", op[2]))
                 want = "ValueError" if p is ValueError else f"nat {p + 1}"
             res = apply_impl(ub, op)
+            if oi % 3 == 2:
+                str(ub)                      # printing the calculation in between is a pure query
             steps += 1
             got = full(ub, which)
             if skip:
